@@ -510,7 +510,7 @@ def validate_sessions(sessions: list[dict], tmp: str) -> list[tuple]:
         path = os.path.join(tmp, f"trace_{i}.json")
         slim = [{"sid": s["sid"], "ncand": s["ncand"], "events": s["events"]} for s in sh]
         with open(path, "w") as f:
-            json.dump({"sessions": slim}, f)
+            json.dump({"sessions": slim, "expected_states": sum(len(x["events"]) + 1 for x in slim)}, f)
         jobs.append((path, n))
     with mp.Pool(min(8, len(jobs))) as pool:
         outs = pool.map(_validate_shard, jobs)
